@@ -52,7 +52,33 @@ def correspond(ctx):
     c2 = vlib.correspond(ctx, 'c04', 'C04', ['n=%d' % (n // 3), 'bind=' + BOUND_TOKEN], canon=canon, timeout=1500, nontrivial=_nontrivial)
     c2['name'] = 'scripts-bound-token'
     _post(c2)
-    return [c1, c2]
+    return [c1, c2, _concurrency(ctx)]
+
+
+def _concurrency(ctx):
+    """Evidence, not proof: N goroutines on their own AccountDB over one shared database must answer as when alone."""
+    res = dict(name='concurrency-evidence (not proof)', ok=False, ops=0, mismatches=0, errors=[], samples=[], distinct_nontrivial=0)
+    race = ctx.thorough()
+    binp, log = vlib.go_build(ctx, vlib.HARNESS, './cmd/c04', 'c04race' if race else 'c04conc', race=race)
+    if not binp:
+        res['errors'].append('build failed: ' + log[-600:])
+        return res
+    cwd = ctx.scratch('c04conc')
+    args = ['mode=conc', 'rounds=%d' % (30 if race else 6)]
+    rc, so, se = vlib.run([binp] + args, cwd=cwd, env=dict(VERIF_SEED=str(ctx.seed)), timeout=1200)
+    import shutil
+    shutil.rmtree(cwd, ignore_errors=True)
+    for line in so.split('\n'):
+        if line.startswith('STATS '):
+            st = json.loads(line[6:])
+            res['stats'] = dict(st, race_detector=race)
+            res['ops'] = st.get('answers_compared', 0)
+            res['mismatches'] = len(st.get('mismatches') or [])
+            res['first'] = [dict(index=0, op='concurrent replay', impl=m, model='answer when run alone') for m in (st.get('mismatches') or [])]
+    if rc != 0:
+        res['errors'].append('exit %d: %s' % (rc, (se or so)[-800:]))
+    res['ok'] = rc == 0 and res['ops'] > 0 and res['mismatches'] == 0
+    return res
 
 
 def _post(c):
